@@ -15,6 +15,15 @@
 //	        must belong to a published snapshot; old snapshots are re-inspected: they must never change;
 //	typeref concurrent RegisterCustomTyperef / lookup / marshal / unmarshal (v2 only).
 //
+// The four scenarios above compare with a serial run made IN THE SAME PROCESS before the storm, which also warms every
+// shared object.  FRESH-STATE BURSTS (burst.go: burst-server, burst-client, burst-d2) are the complement: no request is
+// served serially in the child before the burst; every round constructs new shared objects (server + Handler() copy,
+// client, resolver, the RequiredFields / PathSpec objects of the driver's records, a d2 client and snapshot), and N
+// goroutines released by ONE barrier all send the same valid request, so that the first uses of the new objects (and, in
+// the first round of a child, of the package-level objects of go-restli) overlap.  The expected answers come from ANOTHER
+// child process that serves everything serially (scenario expect).  A child that dies (Go's `fatal error: concurrent map
+// writes`, a panic, any exit code other than the race detector's) is a failing input of its own (crash:...).
+//
 // The model side (coq/Corr/C17Corr.v) only checks the static table `sharedCells` below against Conc/Footprint.v; THE TIE
 // BETWEEN THE MODEL AND THE CODE IS THE RACE DETECTOR.
 package main
@@ -95,6 +104,8 @@ type childCfg struct {
 	Per        int    `json:"per"`
 	Procs      int    `json:"procs"`
 	Seed       uint64 `json:"seed"`
+	Rounds     int    `json:"rounds,omitempty"` // fresh-state bursts: rounds per child, each on newly constructed objects
+	Expect     string `json:"expect,omitempty"` // fresh-state bursts: file with the answers of the serial child process
 }
 
 type mismatch struct {
@@ -103,6 +114,7 @@ type mismatch struct {
 	Name     string `json:"name"`
 	Want     string `json:"want"`
 	Got      string `json:"got"`
+	Request  string `json:"request,omitempty"` // bursts: round, phase, goroutine and the request that got the answer
 }
 
 type childOut struct {
@@ -112,11 +124,12 @@ type childOut struct {
 	Mismatches []mismatch        `json:"mismatches"`
 	Samples    []string          `json:"samples"`
 	Statuses   map[string]string `json:"statuses,omitempty"` // serial result (status / outcome) per request template or client operation
+	Expect     map[string]string `json:"expect,omitempty"`   // scenario expect: the full serial answer per template / operation
 }
 
 func (o *childOut) mismatch(scenario, what, name, want, got string) {
 	if len(o.Mismatches) < 40 {
-		o.Mismatches = append(o.Mismatches, mismatch{scenario, what, name, clip(want), clip(got)})
+		o.Mismatches = append(o.Mismatches, mismatch{Scenario: scenario, What: what, Name: name, Want: clip(want), Got: clip(got)})
 	}
 }
 
@@ -187,6 +200,54 @@ var templates = []tmpl{
 	{Name: "get-without-entity", Verb: "GET", Path: "/items", Method: "get"},
 }
 
+// The wide record of the driver's resources (srv_*.go: v2wide / rootwide): wideN required int fields f000.. (field i has
+// value i) and one optional string.  Everything here is written once by package initialisation and only read afterwards.
+const wideN = 320
+const wideSum = wideN * (wideN - 1) / 2
+
+var wideNames, wideIndex = func() ([]string, map[string]int) {
+	names, index := make([]string, wideN), make(map[string]int, wideN)
+	for i := range names {
+		names[i] = fmt.Sprintf("f%03d", i)
+		index[names[i]] = i
+	}
+	return names, index
+}()
+
+func wideDoc(open, sep, kv, close, note string, skip int) string {
+	var sb strings.Builder
+	sb.WriteString(open)
+	for i, n := range wideNames {
+		if i != skip {
+			sb.WriteString(fmt.Sprintf(kv, n, i) + sep)
+		}
+	}
+	sb.WriteString(note + close)
+	return sb.String()
+}
+
+func wideJSON(note string) string { return wideDoc("{", ",", "%q:%d", "}", `"note":"`+note+`"`, -1) }
+func wideRor2(note string) string { return wideDoc("(", ",", "%s:%d", ")", "note:"+note, -1) }
+
+var wideQuery = wideDoc("", "&", "%s=%d", "", "note=x", -1)
+
+func init() {
+	templates = append(templates,
+		tmpl{Name: "wide-get", Verb: "GET", Path: "/wide/{id}"},
+		tmpl{Name: "wide-create", Verb: "POST", Path: "/wide", Method: "create", Body: wideJSON("{id}")},
+		tmpl{Name: "wide-update", Verb: "PUT", Path: "/wide/{id}", Body: wideJSON("{id}")},
+		tmpl{Name: "wide-batch-get", Verb: "GET", Path: "/wide", Query: "ids=List({id},k2)"},
+		tmpl{Name: "wide-batch-update", Verb: "PUT", Path: "/wide", Query: "ids=List({id})", Body: `{"entities":{"{id}":` + wideJSON("{id}") + `}}`},
+		tmpl{Name: "wide-action", Verb: "POST", Path: "/wide", Query: "action=check", Method: "action", Body: wideJSON("{id}")},
+		tmpl{Name: "wide-finder-query-params", Verb: "GET", Path: "/wide", Query: "q=byAll&" + wideQuery},
+		tmpl{Name: "wide-finder-query-params-tunnelled", Verb: "GET", Path: "/wide", Query: "q=byAll&" + wideQuery, Tunnel: true},
+		tmpl{Name: "wide-finder-record-param", Verb: "GET", Path: "/wide", Query: "q=byRec&rec=" + wideRor2("{id}")},
+		// one required field absent: the expected answer is the 400 naming it
+		tmpl{Name: "wide-action-field-missing", Verb: "POST", Path: "/wide", Query: "action=check", Method: "action",
+			Body: wideDoc("{", ",", "%q:%d", "}", `"note":"{id}"`, 7)},
+		tmpl{Name: "wide-finder-param-missing", Verb: "GET", Path: "/wide", Query: "q=byAll&" + wideDoc("", "&", "%s=%d", "", "note=x", wideN-1)})
+}
+
 var reStack = regexp.MustCompile(`"stackTrace":"(\\.|[^"\\])*"`)
 
 func subst(s, id string) string { return strings.ReplaceAll(s, "{id}", id) }
@@ -200,6 +261,15 @@ func reqID(g, i int) string { return fmt.Sprintf("g%02dq%04dzz", g, i) }
 // one request through the handler; the canonical observation has the request's own id replaced by {id}, so that it can
 // be compared with the serial run of the same template under another id - and so that ANOTHER request's id stands out
 func (t tmpl) run(inst *srvInst, id string) string {
+	req, bad := t.prepare(inst, id)
+	if req == nil {
+		return bad
+	}
+	return serve(inst, req, id)
+}
+
+// the *http.Request of template t for request id (touches nothing shared but EncodeTunnelledQuery's package)
+func (t tmpl) prepare(inst *srvInst, id string) (*http.Request, string) {
 	target := subst(t.Path, id)
 	query := subst(t.Query, id)
 	var body []byte
@@ -218,7 +288,7 @@ func (t tmpl) run(inst *srvInst, id string) string {
 	}
 	u, err := url.Parse("http://server.test" + target)
 	if err != nil {
-		return "bad-url:" + err.Error()
+		return nil, "bad-url:" + err.Error()
 	}
 	u.RawQuery = query
 	var rd io.Reader
@@ -238,6 +308,10 @@ func (t tmpl) run(inst *srvInst, id string) string {
 	if t.Fail != "" {
 		req.Header.Set("X-Fail", t.Fail)
 	}
+	return req, ""
+}
+
+func serve(inst *srvInst, req *http.Request, id string) string {
 	rec := httptest.NewRecorder()
 	inst.handler.ServeHTTP(rec, req)
 	body2 := rec.Body.String()
@@ -257,20 +331,25 @@ func (t tmpl) run(inst *srvInst, id string) string {
 	return strings.ReplaceAll(out, id, "{id}")
 }
 
-func runServer(cc childCfg, mod srvModule) childOut {
-	out := childOut{Kinds: map[string]int{}}
-	inst := mod.build()
-	before := inst.shared()
-	// serial expectations (twice: a template whose serial result is not a function of the request is not compared)
+// serial expectations (twice: a template whose serial result is not a function of the request is not compared)
+func serialServer(inst *srvInst, out *childOut, tag string) map[string]string {
 	expect := map[string]string{}
 	for _, t := range templates {
 		a, b := t.run(inst, idSerialA), t.run(inst, idSerialB)
 		if a != b {
-			out.mismatch("server:"+mod.name, "serial-run-not-deterministic", t.Name, a, b)
+			out.mismatch(tag, "serial-run-not-deterministic", t.Name, a, b)
 			continue
 		}
 		expect[t.Name] = a
 	}
+	return expect
+}
+
+func runServer(cc childCfg, mod srvModule) childOut {
+	out := childOut{Kinds: map[string]int{}}
+	inst := mod.build()
+	before := inst.shared()
+	expect := serialServer(inst, &out, "server:"+mod.name)
 	if s := inst.shared(); s != before {
 		out.mismatch("server:"+mod.name, "shared-object-mutated-serially", "shared", before, s)
 	}
@@ -378,11 +457,62 @@ func (t handlerTransport) RoundTrip(req *http.Request) (*http.Response, error) {
 }
 
 var clientOps = []string{"get", "get-shared", "get-sub", "create", "delete", "find", "find-long", "get-all", "batch-get", "action",
-	"fail", "fail-nostatus", "missing", "update", "update-long", "partial-update-long", "create-long"}
+	"fail", "fail-nostatus", "missing", "update", "update-long", "partial-update-long", "create-long",
+	"wide-get", "wide-create", "wide-update", "wide-find-all", "wide-find-rec", "wide-batch-get", "wide-action"}
+
+// per kind of client (resolver): the operations driven through it
+var opsFor = map[string][]string{"simple": clientOps,
+	"d2": {"get", "create", "delete", "find", "get-all", "batch-get", "action", "update-long", "create-long", "find-long"}} // "items" is the one d2 service
+
+var clientKinds = []string{"simple", "d2"}
 
 // requests built with NewJsonRequest / NewCreateRequest / NewGetRequest / NewDeleteRequest and sent later; the -long ones
 // are tunnelled (query above the threshold), three of them with a body (multipart/mixed)
 var buildOps = []string{"b-update-long", "b-partial-update-long", "b-create-long", "b-update", "b-get-long", "b-delete"}
+
+// build now, send later: the observation of one request
+func buildSend(c *clientFns, op, id string) (*http.Request, string) {
+	req, err := c.build(op, id)
+	if err != nil {
+		return nil, "build-error:" + fmt.Sprintf("%T", err)
+	}
+	return req, ""
+}
+
+func canon(s, id string) string { return strings.ReplaceAll(s, id, "{id}") }
+
+// serial expectations of the client operations (each twice, as serialServer)
+func serialClient(clients map[string]*clientFns, out *childOut, tag string) map[string]string {
+	expect := map[string]string{}
+	for _, op := range buildOps { // serial: build one, send it, build the next
+		obs := [2]string{}
+		for k, id := range []string{idSerialA, idSerialB} {
+			req, e := buildSend(clients["simple"], op, id)
+			if req != nil {
+				e = clients["simple"].send(req)
+			}
+			obs[k] = canon(e, id)
+		}
+		if obs[0] != obs[1] {
+			out.mismatch(tag, "serial-run-not-deterministic", "built:"+op, obs[0], obs[1])
+			continue
+		}
+		expect["built:"+op] = obs[0]
+	}
+	for _, kind := range clientKinds {
+		call := clients[kind].call
+		for _, op := range opsFor[kind] {
+			a := canon(call(op, idSerialA), idSerialA)
+			b := canon(call(op, idSerialB), idSerialB)
+			if a != b {
+				out.mismatch(tag, "serial-run-not-deterministic", kind+":"+op, a, b)
+				continue
+			}
+			expect[kind+":"+op] = a
+		}
+	}
+	return expect
+}
 
 func runClient(cc childCfg, mod srvModule, dm d2Module) childOut {
 	out := childOut{Kinds: map[string]int{}}
@@ -399,45 +529,7 @@ func runClient(cc childCfg, mod srvModule, dm d2Module) childOut {
 		"simple": inst.client(handlerTransport{inst.handler}, nil, 200),
 		"d2":     inst.client(handlerTransport{inst.handler}, d.resolver, 200),
 	}
-	opsFor := map[string][]string{"simple": clientOps,
-		"d2": {"get", "create", "delete", "find", "get-all", "batch-get", "action", "update-long", "create-long", "find-long"}}
-	// build now, send later: the observation of one request
-	buildSend := func(c *clientFns, op, id string) (*http.Request, string) {
-		req, err := c.build(op, id)
-		if err != nil {
-			return nil, "build-error:" + fmt.Sprintf("%T", err)
-		}
-		return req, ""
-	}
-	canon := func(s, id string) string { return strings.ReplaceAll(s, id, "{id}") }
-	expect := map[string]string{}
-	for _, op := range buildOps { // serial: build one, send it, build the next
-		obs := [2]string{}
-		for k, id := range []string{idSerialA, idSerialB} {
-			req, e := buildSend(clients["simple"], op, id)
-			if req != nil {
-				e = clients["simple"].send(req)
-			}
-			obs[k] = canon(e, id)
-		}
-		if obs[0] != obs[1] {
-			out.mismatch("client:"+mod.name, "serial-run-not-deterministic", "built:"+op, obs[0], obs[1])
-			continue
-		}
-		expect["built:"+op] = obs[0]
-	}
-	for kind, fns := range clients {
-		call := fns.call
-		for _, op := range opsFor[kind] {
-			a := strings.ReplaceAll(call(op, idSerialA), idSerialA, "{id}")
-			b := strings.ReplaceAll(call(op, idSerialB), idSerialB, "{id}")
-			if a != b {
-				out.mismatch("client:"+mod.name, "serial-run-not-deterministic", kind+":"+op, a, b)
-				continue
-			}
-			expect[kind+":"+op] = a
-		}
-	}
+	expect := serialClient(clients, &out, "client:"+mod.name)
 	if s := inst.shared(); s != before {
 		out.mismatch("client:"+mod.name, "shared-object-mutated-serially", "shared", before, s)
 	}
@@ -801,6 +893,14 @@ func childMain(raw string) {
 		out = runD2(cc, d2s[cc.Module])
 	case "typeref":
 		out = runTyperef(cc)
+	case "burst-server":
+		out = runBurstServer(cc, mods[cc.Module])
+	case "burst-client":
+		out = runBurstClient(cc, mods[cc.Module], d2s[cc.Module])
+	case "burst-d2":
+		out = runBurstD2(cc, d2s[cc.Module])
+	case "expect":
+		out = runExpect(cc, mods[cc.Module], d2s[cc.Module])
 	default:
 		fmt.Fprintln(os.Stderr, "unknown scenario", cc.Scenario)
 		os.Exit(3)
@@ -817,6 +917,23 @@ type raceReport struct {
 	Sig   string   `json:"sig"`
 	Sites []string `json:"sites"`
 	Text  string   `json:"text"`
+	Phase string   `json:"phase,omitempty"` // fresh-state bursts: the last phase marker (burst.go marker) before the report
+}
+
+// the last phase marker of a burst child before position pos of its stderr
+func lastPhase(stderr string, pos int) string {
+	if pos > len(stderr) {
+		pos = len(stderr)
+	}
+	i := strings.LastIndex(stderr[:pos], "C17-PHASE ")
+	if i < 0 {
+		return ""
+	}
+	l := stderr[i+len("C17-PHASE "):]
+	if j := strings.IndexByte(l, '\n'); j >= 0 {
+		l = l[:j]
+	}
+	return clipN(l, 400)
 }
 
 var reFile = regexp.MustCompile(`^\s+(\S+\.go):(\d+)`)
@@ -864,7 +981,10 @@ func site(stack []frame, repo string) (string, string) {
 
 func parseRaces(stderr, repo string) []raceReport {
 	var out []raceReport
+	pos := 0
 	for _, block := range strings.Split(stderr, "==================") {
+		at := pos
+		pos += len(block) + len("==================")
 		if !strings.Contains(block, "WARNING: DATA RACE") {
 			continue
 		}
@@ -907,7 +1027,7 @@ func parseRaces(stderr, repo string) []raceReport {
 			sites = append(sites, fn+" @ "+file)
 		}
 		sort.Strings(fns)
-		out = append(out, raceReport{Sig: "race:" + strings.Join(fns, "|"), Sites: sites, Text: clip(strings.TrimSpace(block))})
+		out = append(out, raceReport{Sig: "race:" + strings.Join(fns, "|"), Sites: sites, Text: clip(strings.TrimSpace(block)), Phase: lastPhase(stderr, at)})
 	}
 	return out
 }
@@ -917,23 +1037,26 @@ func parseRaces(stderr, repo string) []raceReport {
 // For each kind of operation driven above: the SHARED cells it can touch, as (class, write, sync) with the numbering of
 // coq/Corr/C17Corr.v: classes 1 tree of the handler copy, 2 rootNode (prefix, filters), 3 MethodNameMapping, 4 error
 // object of the resource, 5 success value of the resource, 6 restli.Client struct, 7 the resolver's *url.URL, 8
-// http.Client, 9 d2 services map, 10 d2 uris map, 11 serviceUris snapshot, 12 rand state, 13 typeref registry;
-// sync 0 plain, 1 atomic (sync.Map / net/http), 2 under rngLock.  Written from the Go sources:
+// http.Client, 9 d2 services map, 10 d2 uris map, 11 serviceUris snapshot, 12 rand state, 13 typeref registry, 17 the
+// RequiredFields objects of the records being read; sync 0 plain, 1 atomic (sync.Map / net/http), 2 under rngLock.
+// Written from the Go sources:
 //
 //	serve    handler.go:78-165, 182-353: reads r.prefix, r.subNodes, r.filters, p.methods/finders/actions/subNodes,
-//	         MethodNameMapping, the returned error / value; writes nothing shared
-//	call     http.go:69-127, 163-230, 298-345: reads the Client's fields and the resolver's URL (copied before edit)
+//	         MethodNameMapping, the returned error / value, the RequiredFields of the records it decodes
+//	         (restlicodec/reader.go:125-127, 212-222: copied into a map of the reader's own); writes nothing shared
+//	call     http.go:69-127, 163-230, 298-345: reads the Client's fields and the resolver's URL (copied before edit), the
+//	         RequiredFields of the response record
 //	resolve  d2/client.go:249-259, serviceUris.go:16-76: sync.Map loads, reads the snapshot, rng under rngLock
 //	update   d2/client.go:163-200, serviceUris.go:78-89: sync.Map load/store, reads the old snapshot, writes the new one
 //	registry restlicodec/custom_typerefs.go:20-47: one sync.Map operation
 var sharedCells = [][][3]int{
-	0: {{1, 0, 0}, {2, 0, 0}, {3, 0, 0}, {4, 0, 0}, {5, 0, 0}},
-	1: {{6, 0, 0}, {7, 0, 0}, {8, 1, 1}},
+	0: {{1, 0, 0}, {2, 0, 0}, {3, 0, 0}, {4, 0, 0}, {5, 0, 0}, {17, 0, 0}},
+	1: {{6, 0, 0}, {7, 0, 0}, {8, 1, 1}, {17, 0, 0}},
 	2: {{9, 0, 1}, {10, 0, 1}, {11, 0, 0}, {12, 1, 2}},
 	3: {{10, 0, 1}, {10, 1, 1}, {11, 0, 0}, {11, 1, 0}},
 	4: {{13, 0, 1}},
 	5: {{13, 1, 1}},
-	6: {{6, 0, 0}, {8, 1, 1}, {9, 0, 1}, {10, 0, 1}, {11, 0, 0}, {12, 1, 2}},
+	6: {{6, 0, 0}, {8, 1, 1}, {9, 0, 1}, {10, 0, 1}, {11, 0, 0}, {12, 1, 2}, {17, 0, 0}},
 }
 
 var kindNames = []string{"serve", "client-call(simple resolver)", "resolve/chooseHost", "handleUriUpdate+publish", "registry lookup",
@@ -953,7 +1076,53 @@ type runResult struct {
 	rc     int
 	stderr string
 	err    string
+	crash  *crashReport
 	dur    time.Duration
+}
+
+// A child that died: neither a result nor the race detector's exit code.  The runtime's fatal errors (`concurrent map
+// writes`, `concurrent map read and map write`, `all goroutines are asleep`), an unrecovered panic, a signal.
+type crashReport struct {
+	Kind  string `json:"kind"`
+	Text  string `json:"text"`            // the child's stderr from the fatal line on (head)
+	Phase string `json:"phase,omitempty"` // fresh-state bursts: the requests in flight
+	Exit  int    `json:"exit"`
+}
+
+var reSlug = regexp.MustCompile(`[^a-z0-9]+`)
+
+func classifyCrash(stderr string, rc int) *crashReport {
+	at, kind := -1, fmt.Sprintf("exit%d", rc)
+	if i := strings.Index(stderr, "fatal error: "); i >= 0 {
+		at = i
+		msg := stderr[i+len("fatal error: "):]
+		if j := strings.IndexByte(msg, '\n'); j >= 0 {
+			msg = msg[:j]
+		}
+		if strings.HasPrefix(msg, "concurrent map") {
+			kind = "concurrent-map"
+		} else {
+			kind = "fatal-" + strings.Trim(reSlug.ReplaceAllString(strings.ToLower(clipN(msg, 40)), "-"), "-")
+		}
+	} else if i := strings.Index(stderr, "\npanic: "); i >= 0 || strings.HasPrefix(stderr, "panic: ") {
+		at, kind = i+1, "panic"
+	} else if i := strings.Index(stderr, "SIG"); i >= 0 && rc < 0 {
+		at, kind = i, "signal"
+	}
+	text := stderr
+	if at >= 0 {
+		text = stderr[at:]
+	} else {
+		text = lastLines(stderr, 40)
+	}
+	l := strings.Split(text, "\n")
+	if len(l) > 45 {
+		l = l[:45]
+	}
+	if at < 0 {
+		at = len(stderr)
+	}
+	return &crashReport{Kind: kind, Text: strings.Join(l, "\n"), Phase: lastPhase(stderr, at), Exit: rc}
 }
 
 func runChild(p plan, repo string) runResult {
@@ -986,11 +1155,22 @@ func runChild(p plan, repo string) runResult {
 	}
 	res.races = parseRaces(res.stderr, repo)
 	if err := json.Unmarshal(so.Bytes(), &res.out); err != nil {
-		res.err = fmt.Sprintf("child produced no result (exit %d): %s", res.rc, clip(lastLines(res.stderr, 25)))
+		if res.err == "" && res.rc != 0 && res.rc != 3 {
+			res.crash = classifyCrash(res.stderr, res.rc) // the child died under the operations it was driving: a failing input
+		} else {
+			res.err = fmt.Sprintf("child produced no result (exit %d): %s", res.rc, clip(lastLines(res.stderr, 25)))
+		}
 	} else if res.rc != 0 && res.rc != 66 {
-		res.err = fmt.Sprintf("child exit %d: %s", res.rc, clip(lastLines(res.stderr, 25)))
+		res.crash = classifyCrash(res.stderr, res.rc)
 	}
 	return res
+}
+
+func firstLine(s string) string {
+	if i := strings.IndexByte(s, '\n'); i >= 0 {
+		s = s[:i]
+	}
+	return clipN(s, 200)
 }
 
 func lastLines(s string, n int) string {
@@ -1018,12 +1198,18 @@ func main() {
 
 	goroutines, per, reps := 16, 24, 3
 	procs := []int{1, 2, 8}
+	// fresh-state bursts: goroutines per phase, rounds per child (each on newly constructed objects), children per
+	// (scenario, module, GOMAXPROCS)
+	burstG, burstRounds, burstReps, burstProcs := 8, 12, 1, []int{1, 2, 8}
 	if cfg.Thorough() {
 		goroutines, per, reps = 32, 300, 8
 		procs = []int{1, 2, 3, 4, 8, 16}
+		burstG, burstRounds, burstReps, burstProcs = 16, 60, 4, []int{1, 2, 4, 8, 16}
 	}
 	type sc struct{ scenario, module string }
 	scenarios := []sc{{"server", "v2"}, {"server", "root"}, {"client", "v2"}, {"client", "root"}, {"d2", "v2"}, {"d2", "root"}, {"typeref", "v2"}}
+	bursts := []sc{{"burst-server", "v2"}, {"burst-server", "root"}, {"burst-client", "v2"}, {"burst-client", "root"}, {"burst-d2", "v2"}, {"burst-d2", "root"}}
+	isBurst := func(scenario string) bool { return strings.HasPrefix(scenario, "burst-") }
 	var plans []plan
 	if cfg.Replay != "" {
 		// a replay file names the run that failed; it is re-run 5 times under the same configuration
@@ -1055,11 +1241,72 @@ func main() {
 					if s.scenario == "d2" || s.scenario == "typeref" {
 						n = per * 3
 					}
-					plans = append(plans, plan{childCfg{s.scenario, s.module, g, n, p, seed}, r})
+					plans = append(plans, plan{childCfg{Scenario: s.scenario, Module: s.module, Goroutines: g, Per: n, Procs: p, Seed: seed}, r})
+				}
+			}
+		}
+		for _, s := range bursts {
+			for _, p := range burstProcs {
+				for r := 0; r < burstReps; r++ {
+					seed++
+					c := childCfg{Scenario: s.scenario, Module: s.module, Goroutines: burstG, Procs: p, Seed: seed, Rounds: burstRounds}
+					if s.scenario == "burst-d2" {
+						c.Per, c.Rounds = 2, burstRounds*3
+					}
+					plans = append(plans, plan{c, r})
 				}
 			}
 		}
 	}
+
+	// the answers the bursts are compared with: one SERIAL child process per module; handed to the burst children as a file
+	scratch, err := os.MkdirTemp("", "c17-expect-")
+	if err != nil {
+		fmt.Fprintln(os.Stderr, "cannot create a scratch directory:", err)
+		os.Exit(2)
+	}
+	defer os.RemoveAll(scratch)
+	expectFile := map[string]string{}
+	var expectMods []string
+	for _, m := range []string{"v2", "root"} {
+		for _, pl := range plans {
+			if pl.cfg.Module == m && isBurst(pl.cfg.Scenario) && pl.cfg.Scenario != "burst-d2" {
+				expectMods = append(expectMods, m)
+				break
+			}
+		}
+	}
+	expectRuns := make([]runResult, len(expectMods))
+	var ewg sync.WaitGroup
+	for k, m := range expectMods {
+		ewg.Add(1)
+		go func(k int, m string) {
+			defer ewg.Done()
+			expectRuns[k] = runChild(plan{childCfg{Scenario: "expect", Module: m, Procs: 2, Seed: cfg.Seed}, 0}, repo)
+		}(k, m)
+	}
+	ewg.Wait()
+	for _, res := range expectRuns {
+		m := res.p.cfg.Module
+		if len(res.out.Expect) > 0 && len(res.races) == 0 {
+			b, _ := json.Marshal(res.out.Expect)
+			f := scratch + "/expect_" + m + ".json"
+			if err := os.WriteFile(f, b, 0o644); err == nil {
+				expectFile[m] = f
+			}
+		}
+	}
+	runnable := plans[:0:0]
+	for _, pl := range plans {
+		if isBurst(pl.cfg.Scenario) && pl.cfg.Scenario != "burst-d2" {
+			pl.cfg.Expect = expectFile[pl.cfg.Module]
+			if pl.cfg.Expect == "" {
+				continue // the serial child failed: reported below (expectRuns); nothing to compare a burst with
+			}
+		}
+		runnable = append(runnable, pl)
+	}
+	plans = runnable
 
 	// children run 4 at a time (each sets its own GOMAXPROCS)
 	results := make([]runResult, len(plans))
@@ -1076,10 +1323,15 @@ func main() {
 	}
 	wg.Wait()
 
-	nRaces := 0
+	nRaces, nCrashes, nBurstChildren := 0, 0, 0
 	serial := map[string]string{}
+	results = append(expectRuns, results...)
 	for _, r := range results {
 		tag := fmt.Sprintf("%s:%s", r.p.cfg.Scenario, r.p.cfg.Module)
+		if isBurst(r.p.cfg.Scenario) {
+			nBurstChildren++
+		}
+		r.p.cfg.Expect = "" // a scratch path: of no use in a replay file (the replay makes its own serial child)
 		rep.Count(fmt.Sprintf("runs:%s:procs%d", tag, r.p.cfg.Procs))
 		rep.Evaluations += r.out.Ops
 		for k, n := range r.out.Kinds {
@@ -1092,7 +1344,7 @@ func main() {
 			serial[k+" ("+r.p.cfg.Module+")"] = v
 		}
 		for _, s := range r.out.Samples {
-			if r.p.rep == 0 && r.p.cfg.Procs == procs[len(procs)-1] {
+			if r.p.rep == 0 && (r.p.cfg.Procs == procs[len(procs)-1] || isBurst(r.p.cfg.Scenario)) {
 				rep.Sample(s)
 			}
 		}
@@ -1100,16 +1352,38 @@ func main() {
 		if r.err != "" {
 			rep.Fail("run-failed:"+tag, "the concurrent run did not complete: "+r.err, tag, c, r.err)
 		}
+		if r.crash != nil {
+			nCrashes++
+			what := fmt.Sprintf("the child process of scenario %s DIED (exit %d) while serving concurrent requests: %s", tag, r.crash.Exit, firstLine(r.crash.Text))
+			if r.crash.Phase != "" {
+				what += "; in flight: " + r.crash.Phase
+			}
+			rep.Fail("crash:"+r.crash.Kind+":"+tag, what, tag, map[string]interface{}{"run": r.p.cfg, "in_flight": r.crash.Phase}, r.crash)
+		}
 		for _, rr := range r.races {
 			nRaces++
-			rep.Fail(rr.Sig, "DATA RACE reported by the Go race detector in scenario "+tag+": "+strings.Join(rr.Sites, "  <->  "),
-				strings.Join(rr.Sites, " | "), c, rr.Text)
+			rc := c
+			what := "DATA RACE reported by the Go race detector in scenario " + tag + ": " + strings.Join(rr.Sites, "  <->  ")
+			if rr.Phase != "" {
+				rc = map[string]interface{}{"run": r.p.cfg, "in_flight": rr.Phase}
+				what += "; in flight: " + rr.Phase
+			}
+			rep.Fail(rr.Sig, what, strings.Join(rr.Sites, " | "), rc, rr.Text)
 		}
 		if r.rc == 66 && len(r.races) == 0 {
 			rep.Fail("race:unparsed:"+tag, "the race detector exited with its error code but no report could be parsed", tag, c, clip(lastLines(r.stderr, 40)))
 		}
 		for _, m := range r.out.Mismatches {
 			mc := map[string]interface{}{"run": r.p.cfg, "name": m.Name, "want": m.Want, "got": m.Got}
+			if strings.HasPrefix(m.What, "burst:") { // a request of a fresh-state burst answered otherwise than in the serial process
+				mc["request"] = m.Request
+				rep.Fail(m.What+":"+m.Scenario+":"+m.Name, fmt.Sprintf("%s (%s): a valid request whose serial answer is %q was answered %q; %s",
+					m.What, m.Scenario, firstLine(m.Want), firstLine(m.Got), m.Request), m.Scenario, mc, map[string]string{"want": m.Want, "got": m.Got})
+				continue
+			}
+			if m.Request != "" {
+				mc["request"] = m.Request
+			}
 			rep.Fail("mismatch:"+m.Scenario+":"+m.What+":"+m.Name, m.What+" ("+m.Scenario+", "+m.Name+")", m.Scenario, mc,
 				map[string]string{"want": m.Want, "got": m.Got})
 		}
@@ -1117,6 +1391,12 @@ func main() {
 	rep.Extra["runs"] = len(plans)
 	rep.Extra["serial_outcome_per_template"] = serial
 	rep.Extra["race_reports"] = nRaces
+	rep.Extra["crashed_children"] = nCrashes
+	rep.Extra["fresh_state_bursts"] = map[string]interface{}{"children": nBurstChildren, "goroutines_per_phase": burstG, "rounds_per_child": burstRounds,
+		"gomaxprocs": burstProcs, "wide_record_required_fields": wideN,
+		"shape": "no request is served serially in the child before the burst; every round constructs its shared objects anew; in a phase all " +
+			"goroutines wait on one barrier and then send one valid request each (lead phase: all the same template; round 0: one lead phase " +
+			"per template / client operation); answers are compared with those of a serial child process"}
 	rep.Extra["gomaxprocs"] = procs
 	rep.Extra["goroutines_per_run"] = goroutines
 	rep.Extra["tie"] = "race detector (go build -race) + per-request comparison with the serial run; the Coq cases only compare the static shared-cell table"
